@@ -274,11 +274,13 @@ def install(tap, run):
             post(ev)
         return wrapper
 
-    tap.function(vc, "line_coordinates", pre=pre, post=pure(post_line))
+    # documented defaults: an argument the caller leaves out is judged by these, not by the signature found in the tree
+    tap.function(vc, "line_coordinates", pre=pre, post=pure(post_line), documented={"size": None, "spacing": None, "adjust": "spacing", "pixel_register": False})
     tap.function(vc, "spacing_to_size", pre=pre, post=pure(post_s2s))
-    tap.function(vc, "grid_coordinates", pre=pre, post=pure(post_grid))
-    tap.function(vc, "shape_to_spacing", pre=pre, post=pure(post_shape_to_spacing))
-    tap.function(vc, "profile_coordinates", pre=pre, post=pure(post_profile))
+    tap.function(vc, "grid_coordinates", pre=pre, post=pure(post_grid),
+                 documented={"shape": None, "spacing": None, "adjust": "spacing", "pixel_register": False, "extra_coords": None, "meshgrid": True})
+    tap.function(vc, "shape_to_spacing", pre=pre, post=pure(post_shape_to_spacing), documented={"pixel_register": False})
+    tap.function(vc, "profile_coordinates", pre=pre, post=pure(post_profile), documented={"extra_coords": None})
 
 
 # ----------------------------------------------------------------------
@@ -358,6 +360,8 @@ def run_case(run, tap, stream, index, rng):
             pixel = bool(rng.random() < 0.5)
             vals = vc.line_coordinates(start, stop, spacing=spacing, adjust=adjust, pixel_register=pixel)
             vc.spacing_to_size(start, stop, spacing, adjust)
+            vc.line_coordinates(start, stop, spacing=spacing)  # relying on the documented defaults (adjust="spacing", no pixel registration)
+            vc.grid_coordinates((start, stop, start, stop), spacing=spacing)
             size = int(rng.integers(1, 41))
             vc.line_coordinates(start, stop, size=size, pixel_register=pixel)
         run.sample("random_line", {"start": start, "stop": stop, "spacing": spacing, "adjust": adjust, "pixel_register": pixel, "n_nodes": int(vals.size)})
